@@ -26,5 +26,11 @@ if os.path.exists(res):
     for name, j in sorted(json.load(open(res)).items()):
         rows.append("| mutants/%s | %s | %s | %s | %s |" % (name, j.get('property'), j.get('repo_tests', ''), j.get('detected_by', ''), ", ".join(j.get('keys', []))[:160]))
 block('mutants', "\n".join(rows) + "\n")
+rows = ["| change | property | what it restructures | checks run | silent |", "|---|---|---|---|---|"]
+for m in sorted(glob.glob('/verif/neutral/*/meta.json')):
+    j = json.load(open(m))
+    title = (j.get('title') or '').replace('|', '\\|')
+    rows.append("| neutral/%s | %s | %s | %s | %s |" % (os.path.basename(os.path.dirname(m)), j.get('property'), title[:230], ", ".join(c['check'] for c in j.get('checks_run', [])), "yes" if j.get('silent') else "NO"))
+block('neutral', "\n".join(rows) + "\n")
 open(D, 'w').write(s)
 print("DESIGN.md tables regenerated")
